@@ -137,15 +137,16 @@ func shapesExactly(n int) []*shape {
 
 // deco: presence of the optional body-structure fields, applied to every node.
 type deco struct {
-	params int // 0 nil, 1 empty map, 2 one pair, 3 two pairs (one with an upper-case name)
-	disp   int // 0 nil, 1 value + nil params, 2 value + params
-	lang   int // 0 nil, 1 empty, 2 one, 3 two
-	loc    int // 0 "", 1 set
-	env    int // message wrappers: 0 nil envelope, 1 minimal, 2 full
+	params int  // 0 nil, 1 empty map, 2 one pair, 3 two pairs (one with an upper-case name)
+	disp   int  // 0 nil, 1 value + nil params, 2 value + params
+	lang   int  // 0 nil, 1 empty, 2 one, 3 two
+	loc    int  // 0 "", 1 set
+	env    int  // message wrappers: 0 nil envelope, 1 minimal, 2 full
+	rot    bool // the variants advance from node to node (see deco.at)
 }
 
 func (d deco) String() string {
-	return fmt.Sprintf("params=%d disp=%d lang=%d loc=%d env=%d", d.params, d.disp, d.lang, d.loc, d.env)
+	return fmt.Sprintf("params=%d disp=%d lang=%d loc=%d env=%d rotating-per-node=%v", d.params, d.disp, d.lang, d.loc, d.env, d.rot)
 }
 
 func decoParams(v int, multi bool) map[string]string {
@@ -211,10 +212,22 @@ func decoEnv(v int) *imap.Envelope {
 
 var encodings = []string{"", "7bit", "BASE64", "quoted-printable", "8bit"}
 
+// rotate: in "rotated" mode the presence variants advance from node to node, so that siblings and
+// parents differ in which optional fields they carry.
+var rotateDeco bool
+
+func (d deco) at(n int) deco {
+	if !d.rot {
+		return d
+	}
+	return deco{params: (d.params + n) % 4, disp: (d.disp + n) % 3, lang: (d.lang + n/2) % 4, loc: (d.loc + n) % 2, env: (d.env + n) % 3, rot: true}
+}
+
 // build turns a shape into a body structure; ext: attach extension data to every node.
-func build(s *shape, d deco, ext bool, counter *int) imap.BodyStructure {
+func build(s *shape, d0 deco, ext bool, counter *int) imap.BodyStructure {
 	*counter++
 	n := *counter
+	d := d0.at(n - 1)
 	switch s.kind {
 	case 't', 'b', 'm':
 		sp := &imap.BodyStructureSinglePart{
@@ -244,7 +257,7 @@ func build(s *shape, d deco, ext bool, counter *int) imap.BodyStructure {
 			}
 			sp.MessageRFC822 = &imap.BodyStructureMessageRFC822{
 				Envelope:      decoEnv(d.env),
-				BodyStructure: build(s.kids[0], d, ext, counter),
+				BodyStructure: build(s.kids[0], d0, ext, counter),
 				NumLines:      int64(n + 7),
 			}
 		}
@@ -255,7 +268,7 @@ func build(s *shape, d deco, ext bool, counter *int) imap.BodyStructure {
 	default:
 		mp := &imap.BodyStructureMultiPart{Subtype: []string{"mixed", "alternative", "RELATED"}[n%3]}
 		for _, k := range s.kids {
-			mp.Children = append(mp.Children, build(k, d, ext, counter))
+			mp.Children = append(mp.Children, build(k, d0, ext, counter))
 		}
 		if ext {
 			mp.Extended = &imap.BodyStructureMultiPartExt{Params: decoParams(d.params, true), Disposition: decoDisp(d.disp), Language: decoLang(d.lang), Location: decoLoc(d.loc)}
@@ -333,9 +346,9 @@ func buildFetchFamilies(thorough bool) {
 	// --- attribute subsets x request kind x flavour x API x item order ---
 	{
 		type spec struct {
-			mask, bsReq    int
+			mask, bsReq     int
 			uidCmd, collect bool
-			reversed       bool
+			reversed        bool
 		}
 		var specs []spec
 		for bsReq := 0; bsReq < 3; bsReq++ {
@@ -367,7 +380,7 @@ func buildFetchFamilies(thorough bool) {
 			add(4, fitem{kind: kEnv, env: fullEnvelope()})
 			if sp.bsReq != 0 {
 				c := 0
-				its = append(its, fitem{kind: kBS, bs: build(shapesExactly(4)[20], deco{2, 2, 2, 1, 2}, sp.bsReq == 2, &c)})
+				its = append(its, fitem{kind: kBS, bs: build(shapesExactly(4)[20], deco{params: 2, disp: 2, lang: 2, loc: 1, env: 2}, sp.bsReq == 2, &c)})
 			}
 			add(5, fitem{kind: kSection, sec: mkSection(9, 1, true), pay: payloadSpec{37, 1}})
 			add(6, fitem{kind: kBinary, bin: &imap.FetchItemBinarySection{Part: []int{1, 2}}, pay: payloadSpec{19, 2}})
@@ -385,6 +398,15 @@ func buildFetchFamilies(thorough bool) {
 		}
 		regFetch("fetch-attrs", len(specs), 32, get, func(i int) bool { return specs[i].mask&0xf0 != 0 })
 	}
+
+	// --- many messages in one command (the command's message channel holds 128) ---
+	regFetch("fetch-many", 300, 300, func(i int) *fetchCase {
+		cs := &fetchCase{label: "one of 300 messages of one FETCH", items: []fitem{{kind: kFlags, flags: flagsBenign}, {kind: kSize, size: int64(i)}}}
+		if i%50 == 7 {
+			cs.items = append(cs.items, fitem{kind: kSection, sec: mkSection(0, 0, false), pay: payloadSpec{4097, 1}})
+		}
+		return cs
+	}, nil)
 
 	// --- scalar boundary values ---
 	{
@@ -736,9 +758,16 @@ func buildFetchFamilies(thorough bool) {
 			for d := 0; d < 3; d++ {
 				for l := 0; l < 4; l++ {
 					for lo := 0; lo < 2; lo++ {
-						decosExt = append(decosExt, deco{p, d, l, lo, (p + d + l) % 3})
+						decosExt = append(decosExt, deco{params: p, disp: d, lang: l, loc: lo, env: (p + d + l) % 3})
 					}
 				}
+			}
+		}
+		// second pass: the same starting points, rotating from node to node
+		for _, l := range []*[]deco{&decosPlain, &decosExt} {
+			for _, d := range append([]deco{}, (*l)...) {
+				d.rot = true
+				*l = append(*l, d)
 			}
 		}
 		nPlain := len(shapes) * len(decosPlain)
